@@ -210,6 +210,9 @@ func (c *specCtx) ident(name string) Val {
 // localByName finds a variable of the function under verification by name among current locals.
 func (c *specCtx) localByName(name string) (Val, bool) {
 	vc := c.vc
+	if len(vc.frames) == 0 || vc.frames[0].fn == nil || vc.frames[0].fn.Body == nil {
+		return Val{}, false
+	}
 	fr := vc.frames[0]
 	// contract-declared positional names
 	if vc.contract != nil {
